@@ -6,9 +6,12 @@ package interp
 
 import (
 	"fmt"
+	"go/token"
 	"strings"
 	"sync"
 	"unsafe"
+
+	"golang.org/x/tools/go/ssa"
 )
 
 type gstate int
@@ -65,6 +68,9 @@ func (s *scheduler) finish(outcome, detail string) {
 func (s *scheduler) spawn(fn func(), pos string) *goroutineT {
 	g := &goroutineT{id: len(s.gs), wake: make(chan struct{}, 1), state: gRunnable, spawnPos: pos}
 	s.gs = append(s.gs, g)
+	if s.cur != nil {
+		s.logSpawn(s.cur.id, g.id)
+	}
 	s.wg.Add(1)
 	go func() {
 		defer s.wg.Done()
@@ -484,17 +490,19 @@ const (
 	evExit
 	evLock
 	evUnlock
+	evRLock
+	evRUnlock
 )
 
 type event struct {
-	kind evKind
-	g    int
-	obj  uintptr // cell or channel identity
-	ch   *schan
-	seq  int // per-channel operation sequence number
-	pos  string
-	pkg  string
-	aux  int
+	kind   evKind
+	g      int
+	obj    uintptr // cell / mutex identity
+	ch     *schan
+	pos    token.Pos
+	fn     *ssa.Function
+	aux    int
+	target bool // the access is made by code of the package under test
 }
 
 func (s *scheduler) logEvent(k evKind, g int, ch *schan, pos string) {
@@ -505,21 +513,33 @@ func (s *scheduler) logEventG(k evKind, g int, ch *schan, pos string) {
 	if !s.logEvents {
 		return
 	}
-	e := event{kind: k, g: g, ch: ch, pos: pos}
-	s.events = append(s.events, e)
+	s.events = append(s.events, event{kind: k, g: g, ch: ch})
+}
+
+func (s *scheduler) logSpawn(parent, child int) {
+	if !s.logEvents {
+		return
+	}
+	s.events = append(s.events, event{kind: evSpawn, g: parent, aux: child})
 }
 
 func (s *scheduler) logAccess(k evKind, cell *value) {
 	if !s.logEvents || s.cur == nil {
 		return
 	}
-	e := event{kind: k, g: s.cur.id, obj: uintptr(unsafe.Pointer(cell)), pos: cur.posString()}
-	s.events = append(s.events, e)
+	s.events = append(s.events, event{kind: k, g: s.cur.id, obj: uintptr(unsafe.Pointer(cell)), pos: cur.curPos, fn: cur.curFn, target: cur.curFn != nil && inTargetPkg(cur.curFn)})
+}
+
+func (s *scheduler) logObj(k evKind, obj unsafe.Pointer) {
+	if !s.logEvents || s.cur == nil {
+		return
+	}
+	s.events = append(s.events, event{kind: k, g: s.cur.id, obj: uintptr(obj), pos: cur.curPos, fn: cur.curFn, target: cur.curFn != nil && inTargetPkg(cur.curFn)})
 }
 
 func (s *scheduler) logLock(k evKind, cell *value) {
 	if !s.logEvents || s.cur == nil {
 		return
 	}
-	s.events = append(s.events, event{kind: k, g: s.cur.id, obj: uintptr(unsafe.Pointer(cell)), pos: cur.posString()})
+	s.events = append(s.events, event{kind: k, g: s.cur.id, obj: uintptr(unsafe.Pointer(cell)), pos: cur.curPos})
 }
